@@ -80,6 +80,7 @@ class World:
         self.boundary_hooks: list[Callable[[], None]] = []
         self.boundaries = 0
         self._offer_held = False
+        self._until = None
         self.finished = False
         self.state_keys: set = set()
         self.state_fn: Optional[Callable[[], Any]] = None
@@ -264,6 +265,8 @@ class World:
                 self.trace.append(label)
                 continue
             if action[0] == 'adv':
+                if self._until is not None and not busy and self._until():
+                    return False
                 nt = loop.next_timer()
                 if nt is None or nt[0] > self.horizon:
                     if not busy:
@@ -299,11 +302,15 @@ class World:
     def run(self, until: Optional[Callable[[], bool]] = None):
         """Pumps until quiescence-before-horizon (or ``until()`` is true at a boundary)"""
         self.finished = False
-        while True:
-            if until is not None and until():
-                return
-            if not self.step():
-                return
+        self._until = until
+        try:
+            while True:
+                if until is not None and until():
+                    return
+                if not self.step():
+                    return
+        finally:
+            self._until = None
 
     def run_default_until_idle(self):
         """Runs with the default schedule and without moving the clock until no
